@@ -48,6 +48,9 @@ CLAIMED = {
  "C03": ("path-sensitive admission-predicate check (branch facts + operand provenance), exact share-formula match, share-coverage (who-gets-UpdateLimit / who-may-write) and must-lockset over go/ssa",
          "Static: a request whose partition was found is refused on exactly the paths that established total.busy >= total.limit and bin.busy >= bin.limit, and granted otherwise; the first registered match decides; UpdateLimit stores exactly max(1, ceil(float(total) x immutable fraction)); every selectable partition (container elements and the unknown bucket) is given its share in the constructor, in SetLimit and when added dynamically, with no other writer of a bin limit; the whole decision and add/remove are exclusive critical sections of the strategy mutex. Exact bins are C02/O5. Floating error of the product and user predicates are not covered.",
          "5/C03"),
+ "C01": ("must-lockset at the strategy call sites + all-paths counter typestate with closure/bound-method resolution + branch-fact comparator check + bound proof (>= 1) over go/ssa; linearisation argument on paper",
+         "Static premises of the atomic gate: TryAcquire and post-construction SetLimit on a limiter's strategy run under the limiter's exclusive mutex; in the simple and precise strategies every grant increments the in-flight counter by 1 once, refusals write nothing, the token's release function (resolved through bound methods / closure factories) decrements that same counter by 1 once, no other writer; grant iff counter < limit and refuse iff counter >= limit on the strategy's own fields; every stored limit is proved >= 1; results agree with ok. The step from these premises to the gate property is the paper argument in DESIGN.md 5/C01.",
+         "5/C01"),
 }
 
 PENDING_REASON = "check not built yet in this session; see DESIGN.md section 5 for the planned static obligations"
